@@ -535,6 +535,63 @@ def serveStep (j : Json) : Json :=
     Json.mkObj [("starts", .arr (infos.map (fun i => Json.mkObj [("hid", .str (idToHex i.hid)), ("valid", .bool i.valid),
       ("superseded_by", match i.supersededBy with | some f => .str (idToHex f) | none => .null)])).toArray),
       ("n_history", .num (compact history).length)]
+  | some "command" =>
+    -- defs: what each `.define` frame parses to (by frame id); behaviour per definition
+    let defs := arrOf j "defs"
+    let findDef (id : Nat) : Option Json := defs.find? (fun d => hexToNat ((optStr d "id").getD "0") == id)
+    let parse : SFrame → Except String CDef := fun f =>
+      match findDef f.id with
+      | some d =>
+        if (match d.getObjVal? "valid" with | .ok (.bool b) => b | _ => true) then
+          .ok { id := f.id, ctx := f.ctx, name := (optStr d "name").getD "", suffix := (optStr d "suffix").getD ".recv", ttl := (optStr d "ttl").bind ttlOfString }
+        else .error "invalid"
+      | none => .error "unknown"
+    let eval : CDef → SFrame → CallRes := fun d _ =>
+      match findDef d.id with
+      | some dj =>
+        let appends := (arrOf dj "appends").map outReqOfJson
+        let appends := appends.map (fun o => { o with content := o.content.map (substN 1) })
+        let values := (arrOf dj "values").filterMap (fun v => match v with | .str s => some (substN 1 s) | _ => none)
+        if (match dj.getObjVal? "fail" with | .ok (.bool b) => b | _ => false) then .error appends values "boom"
+        else .ok appends values
+      | none => .error [] [] "unknown"
+    let history := (arrOf j "history").map sframeOfJson
+    let live := (arrOf j "live").map sframeOfJson
+    let r := cmdServe parse eval history live
+    Json.mkObj [
+      ("table", .arr (r.1.map (fun e => Json.mkObj [("ctx", .str (idToHex e.key.1)), ("name", .str e.key.2),
+        ("id", .str (idToHex e.d.id))])).toArray),
+      ("outs", .arr (r.2.map (fun p => Json.mkObj [("frame", .str (idToHex p.1.id)),
+        ("outs", .arr (p.2.map sframeJ).toArray)])).toArray)]
+  | some "generator" =>
+    let history := (arrOf j "history").map sframeOfJson
+    let live := (arrOf j "live").map sframeOfJson
+    let dup := (arrOf j "duplex").filterMap (fun x => match x with | .str s => some (hexToNat s) | _ => none)
+    let duplexOf : SFrame → Bool := fun f => dup.contains f.id
+    -- start-up: the compacted spawns go through the same acceptance as live ones
+    let restarted := gcompact history
+    let r0 := genRun duplexOf [] restarted
+    let r := genRun duplexOf r0.1 live
+    let actJ : GAct → Json := fun a => match a with
+      | .start t => Json.mkObj [("start", .str (idToHex t.id)), ("ctx", .str (idToHex t.ctx)), ("name", .str t.name),
+          ("duplex", .bool t.duplex)]
+      | .reject e => Json.mkObj [("reject", sframeJ e)]
+    Json.mkObj [("restarted", .arr (restarted.map (fun f => Json.str (idToHex f.id))).toArray),
+      ("startup", .arr (r0.2.map actJ).toArray), ("live", .arr (r.2.map actJ).toArray)]
+  | some "lifecycle" =>
+    let tj := (j.getObjVal? "task").toOption.getD .null
+    let isDup : Bool := match tj.getObjVal? "duplex" with | .ok (.bool b) => b | _ => false
+    let t : GTask := { id := hexToNat ((optStr tj "id").getD "0"), ctx := hexToNat ((optStr tj "ctx").getD "0"), name := (optStr tj "name").getD "", duplex := isDup }
+    let strings := (arrOf j "strings").filterMap (fun v => match v with | .str s => some s | _ => none)
+    let stream := (arrOf j "stream").map sframeOfJson
+    let startId := hexToNat ((optStr j "start_id").getD "0")
+    if t.duplex then
+      let input := duplexInput t startId stream
+      let prefix_ := (optStr j "prefix").getD ""
+      Json.mkObj [("frames", .arr ((duplexLifecycle t (input.map (fun x => prefix_ ++ x))).map sframeJ).toArray),
+        ("input", .arr (input.map Json.str).toArray)]
+    else
+      Json.mkObj [("frames", .arr ((lifecycle t strings).map sframeJ).toArray)]
   | _ => Json.mkObj [("err", .str "bad-q")]
 
 partial def serveLoop (h : IO.FS.Stream) : IO Unit := do
